@@ -17,4 +17,16 @@ claimed.update({
  "C19": ("decision-table identities (no external oracle) + wrapper wiring extraction",
          "Decides the edge-level forms of the four set identities inside the extracted contribution table for every fill rule and cell, and that each named wrapper passes the clip type its name states with subject/clip/fill rule in order. Area bounds are not decided.", "DESIGN.md §4 C19", NOTE),
 })
+claimed.update({
+ "C02": ("must-precede / guard analysis on the CFG + abstract exploration of buildPath",
+         "Decides that every closed path is emitted only through cleanCollinear -> buildPath(c.reverseSolution,false) -> guarded append in both pipelines, that buildPath refuses rings of fewer than 3 nodes and filters equal consecutive points, and that every site honours the reverse-solution option. The winding-number/orientation clauses are geometric and not decided.", "DESIGN.md §4 C02", NOTE),
+ "C04": ("must-precede / guard analysis + decision table for IsHole/Level",
+         "Decides once-only insertion (single AddChild caller under the polypath==nil guard), that tree polygons come from the same cleaning/building pipeline as the flat result, and the IsHole/Level parity table. Containment and nesting correctness are not decided.", "DESIGN.md §4 C04", NOTE),
+ "C12": ("clear-before-append tracking through callees, field write inventory with re-initialisation proofs (must-store dataflow), frozen-input store scan, points-to write effects",
+         "Decides that solution arguments are cleared before the first append on every path, that every engine field written during execution is re-initialised (reset / prologue / epilogue / mode field), that executions never write the retained input graph and that no library write reaches caller input slices. With determinism (C17) identical state gives identical answers. Order-of-AddPaths independence is not decided.", "DESIGN.md §4 C12", NOTE),
+ "C13": ("magnitude-bits abstract interpretation of all int64 arithmetic (interprocedural) + int/float round-trip scan",
+         "Decides the 'no intermediate exceeds 64 bits' clause: with |coord| <= 2^61 no int64 +,-,* can need more than 63 bits and no >53-bit integer is taken through float64 and back. Float rounding-error growth and the 128-bit limb identities are not decided.", "DESIGN.md §4 C13", NOTE),
+ "C14": ("decision table for triSign, magnitude-bits analysis at 2^29 (int64 and float mantissa), bounds-accumulator exploration",
+         "Decides that triSign is the sign function per cell, that the predicate/measure functions have no wrapped int64 intermediate and no float detour beyond 53 bits at |coord| <= 2^29, that the bounds accumulators start at the right extremes with independent per-axis updates, and IsPositive64/AreaPaths64's definitions. PointInPolygon's crossing walk is not decided.", "DESIGN.md §4 C14", NOTE),
+})
 not_applicable = {}
